@@ -16,6 +16,7 @@ AllSideIs(base, D, side, target) ==
   LET r == ApplyDecisions(base, AllSide(D, side)) IN r.ok /\ Eq(r.v, target)
 
 AllDecisionSchemaOK(D) == \A k \in 1..Len(D) : DecisionSchemaOK(D[k])
+AllDecisionSchemaOKFor(D, acts) == \A k \in 1..Len(D) : DecisionSchemaOKFor(D[k], acts)
 AllDecisionPlainJSON(D) == \A k \in 1..Len(D) : DecisionPlainJSON(D[k])
 
 (***************************************************************************)
